@@ -487,6 +487,47 @@ func checkLockset(c *Ctx) {
 				case *ssa.UnOp:
 					if x.Op == token.MUL {
 						accs = append(accs, access{fn, x, fv, false, heldAt(fn, x, fad.X, false)})
+						// a slice field used as a scratch buffer: a store through it (element store, copy destination)
+						// writes memory that every holder of the field shares
+						if _, isSl := fv.Type().Underlying().(*types.Slice); isSl {
+							seen := map[ssa.Value]bool{}
+							var contentWrite func(v ssa.Value, d int) ssa.Instruction
+							contentWrite = func(v ssa.Value, d int) ssa.Instruction {
+								if d > 4 || seen[v] {
+									return nil
+								}
+								seen[v] = true
+								for _, rr := range refs(v) {
+									switch y := rr.(type) {
+									case *ssa.Slice:
+										if y.X == v {
+											if w := contentWrite(y, d+1); w != nil {
+												return w
+											}
+										}
+									case *ssa.IndexAddr:
+										if y.X == v {
+											for _, r3 := range refs(y) {
+												if st, isSt := r3.(*ssa.Store); isSt && st.Addr == ssa.Value(y) {
+													return st
+												}
+											}
+										}
+									case *ssa.Call:
+										if bi, isB := y.Call.Value.(*ssa.Builtin); isB && bi.Name() == "copy" && len(y.Call.Args) == 2 && y.Call.Args[0] == v {
+											return y
+										}
+									}
+								}
+								return nil
+							}
+							if w := contentWrite(x, 0); w != nil {
+								if top != newNodeDB {
+									written[fv] = true
+								}
+								accs = append(accs, access{fn, w, fv, true, heldAt(fn, w, fad.X, true)})
+							}
+						}
 						// objects without their own synchronisation (the LRU caches): every method
 						// call on the loaded object reads and writes its contents
 						if n := derefNamed(fv.Type()); n != nil && n.Obj().Name() == "Cache" {
